@@ -6,6 +6,19 @@
 pub uninterp spec fn opts_view(m: std::collections::HashMap<DhcpOption, Vec<u8>>) -> Map<u8, Seq<u8>>;
 pub open spec fn opt_get(m: Map<u8, Seq<u8>>, k: u8) -> Seq<u8> { if m.dom().contains(k) { m[k] } else { Seq::empty() } }
 
+// decoding of the option stream as a spec function over the bytes after the magic cookie.
+// fuel-free: recursion on the remaining length.
+pub open spec fn dec_opts(s: Seq<u8>, acc: Map<u8, Seq<u8>>) -> Option<Map<u8, Seq<u8>>>
+    decreases s.len()
+{
+    if s.len() == 0 { None }                       // ran off the end without End option
+    else if s[0] == 0 { dec_opts(s.skip(1), acc) } // pad
+    else if s[0] == 255 { Some(acc) }              // end
+    else if s.len() < 2 { None }
+    else if s.len() < 2 + s[1] as int { None }
+    else { dec_opts(s.skip(2 + s[1] as int), acc.insert(s[0], opt_get(acc, s[0]) + s.subrange(2, 2 + s[1] as int))) }
+}
+
 // environment stubs for HashMap<DhcpOption, Vec<u8>> (std HashMap with a user key type; assumed to behave as a map)
 #[verifier::external_body]
 pub fn verif_opts_new() -> (r: std::collections::HashMap<DhcpOption, Vec<u8>>)
